@@ -65,22 +65,42 @@ def confirm(directory):
 
 
 def detect(directory, prop, extra):
+    """run ./check against the change.  Default: scratch worktree of /repo HEAD with the patch applied, put in front
+    of the import path (so several detections can run side by side and /repo stays untouched); with --in-repo the
+    patch is applied to /repo itself (git -C /repo apply; ./check; git -C /repo checkout -- .)"""
     patch = os.path.join(directory, 'patch.diff')
-    status = sh(['git', '-C', REPO, 'status', '--porcelain', '--untracked-files=no']).stdout.strip()
-    assert not status, '/repo is not clean: %s' % status
-    res = sh(['git', '-C', REPO, 'apply', '--recount', patch])
-    if res.returncode != 0:
-        res = sh(['patch', '-p1', '--no-backup-if-mismatch', '-i', patch], cwd=REPO)
-    assert res.returncode == 0, res.stdout + res.stderr
+    in_repo = '--in-repo' in extra
+    extra = [item for item in extra if item != '--in-repo']
+    env = dict(os.environ)
+    if in_repo:
+        status = sh(['git', '-C', REPO, 'status', '--porcelain', '--untracked-files=no']).stdout.strip()
+        assert not status, '/repo is not clean: %s' % status
+        target = REPO
+    else:
+        target = tempfile.mkdtemp(prefix='seedwt-', dir='/tmp')
+        os.rmdir(target)
+        res = sh(['git', '-C', REPO, 'worktree', 'add', '-q', '--detach', target, 'HEAD'])
+        assert res.returncode == 0, res.stderr
+        env['SYMCHECK_REPO'] = target
+        env['SYMCHECK_TAG'] = os.path.basename(target)
     try:
-        run = sh([os.path.join(VERIF, 'check'), prop] + extra, cwd=VERIF, timeout=7200)
+        res = sh(['git', 'apply', '--recount', patch], cwd=target)
+        if res.returncode != 0:
+            res = sh(['patch', '-p1', '--no-backup-if-mismatch', '-i', patch], cwd=target)
+        assert res.returncode == 0, res.stdout + res.stderr
+        run = subprocess.run([os.path.join(VERIF, 'check'), prop] + extra, cwd=VERIF, capture_output=True, text=True,
+                             timeout=7200, check=False, env=env)
     finally:
-        sh(['git', '-C', REPO, 'checkout', '--', '.'])
+        if in_repo:
+            sh(['git', '-C', REPO, 'checkout', '--', '.'])
+        else:
+            sh(['git', '-C', REPO, 'worktree', 'remove', '--force', target])
+            sh(['rm', '-rf', target])
     lines = [line for line in run.stdout.splitlines() if line.startswith(('VIOLATION', 'KNOWN-FINDING'))]
     errs = [line for line in run.stderr.splitlines() if line.startswith('HARNESS-ERROR')]
     return {'dir': directory, 'property': prop, 'exit': run.returncode, 'violations': lines[:8],
             'violation_details': [l.strip() for l in run.stderr.splitlines() if l.startswith('    ')][:8],
-            'harness_errors': errs[:5]}
+            'harness_errors': errs[:5], 'in_repo': in_repo}
 
 
 def keep(directory, prop, name, extra):
@@ -111,7 +131,9 @@ def keep(directory, prop, name, extra):
             'scratch worktree of /repo HEAD: pytest outcome with patch == baseline (%s)' % conf['suite_mutant'],
             'demo.py on clean worktree: exit %d; with patch: exit %d (%s)' % (
                 conf['demo_clean_exit'], conf['demo_mutant_exit'], conf['demo_mutant_out'][:200]),
-            'git -C /repo apply patch.diff; ./check %s %s; git -C /repo checkout -- .' % (prop, ' '.join(extra)),
+            ('git -C /repo apply patch.diff; ./check %s %s; git -C /repo checkout -- .' if det.get('in_repo') else
+             'scratch worktree of /repo HEAD + patch.diff, SYMCHECK_REPO=<worktree> ./check %s %s') % (
+                 prop, ' '.join(e for e in extra if e != '--in-repo')),
         ],
         'check_exit': det['exit'],
         'detected': det['exit'] == 1 and bool(det['violations']),
